@@ -1,13 +1,18 @@
 package joiner
 
 import (
+	"bytes"
+	"context"
+	"encoding/binary"
 	"io"
 
 	"github.com/gauss-project/aurorafs/pkg/boson"
+	"github.com/gauss-project/aurorafs/pkg/storage"
 	"github.com/gauss-project/aurorafs/pkg/zzverif"
 )
 
 //verif:root pkg/boson
+//verif:option symbolic-make
 
 // VerifC07_LeafReadAt: a file stored in a single (root = leaf) chunk of any size
 // 0..ChunkSize, read at any offset into a buffer of any length and capacity.
@@ -107,4 +112,81 @@ func VerifC07_SeekRead() {
 		zzverif.Assert(e1 == io.EOF && n1 == 0 && cur >= size || len(b1) == 0, "only EOF at the end")
 	}
 	zzverif.Reach("C07-seek-read")
+}
+
+// ---- two-level tree: one intermediate root with r leaf children ----
+
+type verifC07getter struct {
+	addrs [][]byte
+	data  [][]byte // span ‖ payload per child
+	calls int
+}
+
+func (g *verifC07getter) Get(ctx context.Context, mode storage.ModeGet, addr boson.Address) (boson.Chunk, error) {
+	g.calls++
+	for i, a := range g.addrs {
+		if bytes.Equal(a, addr.Bytes()) {
+			return boson.NewChunk(addr, g.data[i]), nil
+		}
+	}
+	return nil, storage.ErrNotFound
+}
+
+func verifC07leaf(name string, size int) []byte {
+	payload := zzverif.BigBytes(name, boson.ChunkSize)
+	zzverif.Assume(len(payload) == size)
+	d := make([]byte, 8+size)
+	binary.LittleEndian.PutUint64(d[:8], uint64(size))
+	copy(d[8:], payload)
+	return d
+}
+
+// VerifC07_TwoLevelReadAt: a file of r-1 full chunks plus a last chunk of any
+// size, read at any offset into a buffer of any length.
+func VerifC07_TwoLevelReadAt() {
+	zzverif.Unwind(24)
+	r := 2 + zzverif.Choose("children", zzverif.Param("maxchildren", 1, 2)) // 2 (quick) or 2..3
+	g := &verifC07getter{}
+	var root []byte
+	last := zzverif.Int("lastsize")
+	zzverif.Assume(last >= 1 && last <= boson.ChunkSize)
+	total := int64(0)
+	for c := 0; c < r; c++ {
+		addr := make([]byte, boson.HashSize)
+		addr[0] = byte(0xc0 + c)
+		size := boson.ChunkSize
+		if c == r-1 {
+			size = last
+		}
+		g.addrs = append(g.addrs, addr)
+		g.data = append(g.data, verifC07leaf("child", size))
+		root = append(root, addr...)
+		total += int64(size)
+	}
+	j := &joiner{span: total, rootData: root, refLength: boson.HashSize, getter: g, ctx: context.Background()}
+
+	full := zzverif.BigBytes("buf", 1<<20)
+	l := zzverif.Int("len")
+	zzverif.Assume(l >= 0 && l <= len(full))
+	b := full[:l]
+	off := zzverif.I64("off")
+	zzverif.Assume(off >= 0)
+	n, err := j.ReadAt(b, off)
+	zzverif.Assert(n <= len(b), "reports at most len(buffer)")
+	if off >= total {
+		zzverif.Assert(n == 0 && err == io.EOF, "EOF at or past the end")
+	} else {
+		want := total - off
+		if int64(l) < want {
+			want = int64(l)
+		}
+		zzverif.Assert(err == nil, "no error inside the file")
+		zzverif.Assert(int64(n) == want, "returns min(len, size-off) bytes")
+		i := zzverif.Int("i")
+		zzverif.Assume(i >= 0 && i < n && i < l)
+		p := off + int64(i) // position in the file
+		c := int(p / int64(boson.ChunkSize))
+		zzverif.Assert(b[i] == g.data[c][8+p%int64(boson.ChunkSize)], "bytes equal the content")
+	}
+	zzverif.Reach("C07-two-level-readat")
 }
